@@ -56,7 +56,23 @@ def user_function(*args, **kwargs):
     return (args, kwargs)
 
 
-FUNCTIONS = {'user_function': user_function, 'len': len, 'sorted': sorted, 'int': int, 'dict': dict, 'print': print}
+FUNCTIONS = {'user_function': user_function, 'len': len, 'sorted': sorted, 'int': int, 'dict': dict, 'print': print,
+             'math.sqrt': __import__('math').sqrt, 'dict.fromkeys': dict.fromkeys, 'datetime.fromtimestamp': dt.datetime.fromtimestamp,
+             'OrderedDict': collections.OrderedDict, 'int.from_bytes': int.from_bytes}
+import math as _math
+import io as _io
+import random as _random
+# functions, classes and methods (printers for type / function / builtin function are shipped too).  Reconstructable ones
+# evaluate back to the same object; bound methods of instances can only be checked for "the printer does not fail".
+CALLABLES_OK = {'len': len, 'sorted': sorted, 'math.sqrt': _math.sqrt, 'math.floor': _math.floor, 'int': int, 'dict': dict,
+                'OrderedDict': collections.OrderedDict, 'date': dt.date, 'datetime': dt.datetime, 'partial': functools.partial, 'UUID': uuid.UUID,
+                'user_function': None, 'dict.fromkeys': dict.fromkeys, 'int.from_bytes': int.from_bytes, 'datetime.fromtimestamp': dt.datetime.fromtimestamp,
+                'date.today': dt.date.today, 'OrderedDict.fromkeys': collections.OrderedDict.fromkeys, 'Color': None, 'Point': None,
+                'PurePosixPath': pathlib.PurePosixPath, 'NoneType': type(None), 'ValueError': ValueError, 'bytes.fromhex': bytes.fromhex}
+CALLABLES_TOTAL = {'list.append': lambda: [].append, 'str.upper': lambda: 'x'.upper, 'deque.append': lambda: collections.deque().append,
+                   'StringIO.write': lambda: _io.StringIO().write, 'random.random': lambda: _random.random, 'dict.get': lambda: {}.get,
+                   'lambda': lambda: (lambda x: x), 'bytes.hex': lambda: b'x'.hex, 'Random.seed': lambda: _random.Random().seed,
+                   'set.add': lambda: set().add, 'int.bit_length': lambda: (5).bit_length}
 FACTORIES = {'int': int, 'list': list, 'dict': dict, 'str': str, 'set': set, None: None}
 EXCEPTIONS = {n: getattr(__import__('builtins'), n) for n in
               ['Exception', 'ValueError', 'KeyError', 'TypeError', 'RuntimeError', 'OSError', 'StopIteration',
@@ -141,6 +157,10 @@ def build_std(r, build):
         return EXCEPTIONS[r[2]](*[build(x) for x in r[3]])
     if k == 'path':
         return PATHS[r[2]](r[3])
+    if k == 'callable':
+        if r[2] in CALLABLES_TOTAL:
+            return CALLABLES_TOTAL[r[2]]()
+        return {'user_function': user_function, 'Color': Color, 'Point': Point}.get(r[2]) or CALLABLES_OK[r[2]]
     raise ValueError(r)
 
 
@@ -152,8 +172,9 @@ def env():
     import functools
     import pathlib
     import time
+    import math
     return {'ppv': ppv, 'pytz': pytz, 'datetime': datetime, 'collections': collections, 'types': types,
-            'uuid': uuid, 'functools': functools, 'pathlib': pathlib, 'time': time,
+            'uuid': uuid, 'functools': functools, 'pathlib': pathlib, 'time': time, 'math': math,
             'mappingproxy': types.MappingProxyType}
 
 
@@ -223,13 +244,15 @@ def std_equal(a, b, same):
     if isinstance(a, tuple):   # namedtuples
         return None if same(tuple(a), tuple(b)) else 'namedtuple differs: %r vs %r' % (a, b)
     if isinstance(a, (functools.partial, functools.partialmethod)):
-        if a.func is not b.func:
+        if a.func is not b.func and not (a.func == b.func):      # (classmethods are new bound-method objects on every access)
             return 'partial func differs'
         if not same(tuple(a.args), tuple(b.args)) or not same(dict(a.keywords), dict(b.keywords)):
             return 'partial args differ: %r vs %r' % (a, b)
         return None
     if isinstance(a, BaseException):
         return None if same(tuple(a.args), tuple(b.args)) else 'exception args differ: %r vs %r' % (a.args, b.args)
+    if callable(a):
+        return None if (a is b or a == b) else 'callable differs: %r vs %r' % (a, b)
     return 'unhandled type %s' % type(a).__name__
 
 
